@@ -263,12 +263,39 @@ static void digest (int i)
   agent_unlock (ag);
 }
 
+/* ------------------------------------------------------------------ pull-mode receive: the application has no receive callback and calls
+ * nice_agent_recv_messages_nonblocking itself with a scatter layout (exactly-sized heap buffers, so that ASan sees any access outside them);
+ * polled after every delivery / dispatch round until it would block.  Events are logged like callback deliveries ("rx"). */
+typedef struct { int agent; guint s, c; int nb; gsize sz[8]; int active; } Pull;
+static Pull pulls[16]; static int npulls;
+static void pull_all (void)
+{
+  for (int k = 0; k < npulls; k++) {
+    Pull *pl = &pulls[k]; if (!pl->active || !A[pl->agent].agent) continue;
+    for (int guard = 0; guard < 64; guard++) {
+      GInputVector v[8]; for (int j = 0; j < pl->nb; j++) { v[j].buffer = g_malloc (pl->sz[j] ? pl->sz[j] : 1); if (!pl->sz[j]) { g_free (v[j].buffer); v[j].buffer = g_malloc (1); } v[j].size = pl->sz[j]; }
+      NiceInputMessage m = { v, pl->nb, NULL, 0 }; GError *err = NULL;
+      gint r = nice_agent_recv_messages_nonblocking (A[pl->agent].agent, pl->s, pl->c, &m, 1, NULL, &err);
+      if (r == 1) {
+        guint8 *flat = g_malloc (m.length ? m.length : 1); gsize off = 0;
+        for (int j = 0; j < pl->nb && off < m.length; j++) { gsize take = MIN (pl->sz[j], m.length - off); memcpy (flat + off, v[j].buffer, take); off += take; }
+        if (off != m.length) T ("rxbad %d %u %u length %" G_GSIZE_FORMAT " exceeds the layout", pl->agent, pl->s, pl->c, m.length);
+        else cb_recv (A[pl->agent].agent, pl->s, pl->c, (guint) m.length, (gchar *) flat, &A[pl->agent]);
+        g_free (flat);
+      } else if (err && !g_error_matches (err, G_IO_ERROR, G_IO_ERROR_WOULD_BLOCK)) { T ("pullerr %d %u %u %d %s", pl->agent, pl->s, pl->c, err->code, err->message); pl->active = 0; }
+      g_clear_error (&err);
+      for (int j = 0; j < pl->nb; j++) g_free (v[j].buffer);
+      if (r != 1) break;
+    }
+  }
+}
+
 /* ------------------------------------------------------------------ main loop in virtual time */
 static int spinning;
 static gint64 atk_period_us, atk_next_us; static void atk_fire (void);
 /* every dispatch advances the virtual clock by one microsecond (as real time would at the very least), so that code
  * comparing "now" with a deadline it just computed cannot be fooled by a frozen clock */
-static void pump (void) { int guard = 0; while (!spinning && g_main_context_iteration (ctx, FALSE)) { dispatch_count++; vnow_us++; if (++guard > 200000) { spinning = 1; T ("SPIN dispatches=%d without the main loop going back to sleep", guard); } } }
+static void pump (void) { int guard = 0; if (npulls) pull_all (); while (!spinning && g_main_context_iteration (ctx, FALSE)) { dispatch_count++; vnow_us++; if (npulls) pull_all (); if (++guard > 200000) { spinning = 1; T ("SPIN dispatches=%d without the main loop going back to sleep", guard); } } }
 static void run_for (long ms)
 {
   gint64 end = vnow_us + ms * 1000LL; int guard = 0;
@@ -392,15 +419,17 @@ static int atk_owner (const NiceAddress *a, char *uname, guint *comp)
 static const uint16_t atk_known[] = { 0x0006, 0x0008, 0x0020, 0x0024, 0x0025, 0x8029, 0x802a, 0x0009, 0 };
 static void atk_fire (void)
 {
-  static const char *names[] = { "rand", "rtp", "req-nomi", "req-wrongkey", "req-truncmi", "resp-forged", "err487-forged", "err403-forged", "indication", "req-conflict", "req-3489-bare" };
+  static const char *names[] = { "rand", "rtp", "req-nomi", "req-wrongkey", "req-truncmi", "resp-forged", "err487-forged", "err403-forged", "indication", "req-conflict", "req-3489-bare", "resp-unmatched", "data-spoofed" };
   guint live = 0; for (guint i = 0; i < vsocks->len; i++) { VSock *v = vsocks->pdata[i]; if (!v->closed) live++; }
   if (!live) return;
-  int kind; int guard = 0; do kind = arnd () % 11; while (!(atk_mask & (1u << kind)) && ++guard < 100);
+  int kind; int guard = 0; do kind = arnd () % 13; while (!(atk_mask & (1u << kind)) && ++guard < 100);
   VSock *tv = NULL; guint pick = arnd () % live; for (guint i = 0; i < vsocks->len; i++) { VSock *v = vsocks->pdata[i]; if (!v->closed && pick-- == 0) tv = v; }
   NiceAddress to = tv->nsock->addr, me; nice_address_init (&me); nice_address_set_from_string (&me, "10.66.0.1"); nice_address_set_port (&me, 6000 + arnd () % 4);
   guint8 buf[1500]; gsize n = 0; char uname[600] = "a:b"; guint comp = 1; int owner = atk_owner (&to, uname, &comp);
   NiceAddress from = me;
-  if (kind >= 2 && kind != 5 && kind != 6 && kind != 7 && kind != 10 && arnd () % 10 < 3) {   /* spoof one of the peer's addresses (not for datagrams the agent may
+  /* kinds 11 / 12: from a candidate address of the peer that was signalled to the victim; 12 (plain data) only makes sense against a victim
+   * that never validated that source (the isolated-victim scenarios) */
+  if (kind >= 2 && kind != 5 && kind != 6 && kind != 7 && kind != 10 && (arnd () % 10 < 3 || kind == 12 || (kind == 11 && (arnd () & 1)))) {   /* spoof one of the peer's addresses (not for datagrams the agent may
        legitimately treat as application data from that peer: ICE does not authenticate data) */
     for (guint i = 0; i < vsocks->len; i++) { VSock *v = vsocks->pdata[(i + arnd ()) % vsocks->len]; char u2[600]; guint c2; if (!v->closed && atk_owner (&v->nsock->addr, u2, &c2) != owner) { from = v->nsock->addr; break; } } }
   StunAgent sa; StunMessage m; stun_agent_init (&sa, atk_known, STUN_COMPATIBILITY_RFC5389, STUN_AGENT_USAGE_SHORT_TERM_CREDENTIALS | STUN_AGENT_USAGE_USE_FINGERPRINT);
@@ -419,6 +448,15 @@ static void atk_fire (void)
       StunAgent old; stun_agent_init (&old, atk_known, STUN_COMPATIBILITY_RFC3489, 0); stun_agent_init_request (&old, &m, buf, sizeof buf, STUN_BINDING);
       if (arnd () & 1) stun_message_append32 (&m, STUN_ATTRIBUTE_PRIORITY, 0x7e0000ff);
       n = stun_agent_finish_message (&old, &m, NULL, 0); break; }
+    case 11: { /* a response (success or error) to a transaction nobody started: correct FINGERPRINT (needs no secret), no or junk MESSAGE-INTEGRITY */
+      guint8 rq[64]; StunMessage req; StunAgent pa; stun_agent_init (&pa, atk_known, STUN_COMPATIBILITY_RFC5389, STUN_AGENT_USAGE_USE_FINGERPRINT | STUN_AGENT_USAGE_IGNORE_CREDENTIALS);
+      stun_agent_init_request (&pa, &req, rq, sizeof rq, STUN_BINDING); for (int i = 8; i < 20; i++) rq[i] = arnd ();
+      if (arnd () & 1) { if (!stun_agent_init_response (&pa, &m, buf, sizeof buf, &req)) return;
+        union { struct sockaddr_storage ss; struct sockaddr sa; } u; nice_address_copy_to_sockaddr (&me, &u.sa); stun_message_append_xor_addr (&m, STUN_ATTRIBUTE_XOR_MAPPED_ADDRESS, &u.ss, sizeof u.ss); }
+      else if (!stun_agent_init_error (&pa, &m, buf, sizeof buf, &req, (arnd () & 1) ? STUN_ERROR_ROLE_CONFLICT : 400)) return;
+      if (arnd () % 3 == 0) { guint8 junk[20]; for (int i = 0; i < 20; i++) junk[i] = arnd (); stun_message_append_bytes (&m, STUN_ATTRIBUTE_MESSAGE_INTEGRITY, junk, 20); }
+      n = stun_agent_finish_message (&pa, &m, NULL, 0); break; }
+    case 12: n = 12 + arnd () % 200; for (gsize i = 0; i < n; i++) buf[i] = arnd (); buf[0] = 0x80; buf[1] = 96 + arnd () % 20; break;
     case 8: stun_agent_init_indication (&sa, &m, buf, sizeof buf, STUN_BINDING); if (arnd () & 1) stun_message_append_bytes (&m, STUN_ATTRIBUTE_USERNAME, uname, strlen (uname)); n = stun_agent_finish_message (&sa, &m, NULL, 0); break;
     case 5: case 6: case 7: {
       if (!reqlog_n) return;
@@ -459,6 +497,10 @@ static void do_op (char *op)
   else if (!strcmp (a[0], "tie")) { A[I (1)].agent->tie_breaker = g_ascii_strtoull (a[2], NULL, 10); T ("api %d tie %s", I (1), a[2]); }
   else if (!strcmp (a[0], "stream")) { guint s = nice_agent_add_stream (A[I (1)].agent, I (2)); T ("api %d add_stream %d =%u", I (1), I (2), s);
     for (int c = 1; c <= I (2); c++) nice_agent_attach_recv (A[I (1)].agent, s, c, ctx, cb_recv, &A[I (1)]); }
+  else if (!strcmp (a[0], "pull")) { /* pull,i,s,c,size.size... : no receive callback any more, the simulator polls nice_agent_recv_messages_nonblocking with this layout */
+    if (npulls < 16) { Pull *pl = &pulls[npulls++]; memset (pl, 0, sizeof *pl); pl->agent = I (1); pl->s = I (2); pl->c = I (3); pl->active = 1;
+      char **z = g_strsplit (a[4], ".", 8); for (int j = 0; z[j] && j < 8; j++) pl->sz[pl->nb++] = atol (z[j]); g_strfreev (z);
+      gboolean r = nice_agent_attach_recv (A[I (1)].agent, I (2), I (3), ctx, NULL, NULL); T ("api %d pull %d %d %s =%d", I (1), I (2), I (3), a[4], r); } }
   else if (!strcmp (a[0], "gather")) { gboolean r = nice_agent_gather_candidates (A[I (1)].agent, I (2)); T ("api %d gather %d =%d", I (1), I (2), r); }
   else if (!strcmp (a[0], "creds")) copy_creds (I (1), I (2), I (3));
   else if (!strcmp (a[0], "cands")) copy_cands (I (1), I (2), I (3), I (4), n > 5 ? I (5) : -1);
@@ -584,7 +626,7 @@ static int run_case (char *line)
 {
     char *sv, *id = strtok_r (line, " \n", &sv); if (!id) return 0;
     /* fresh world */
-    ctx = g_main_context_new (); g_main_context_push_thread_default (ctx); vsocks = g_ptr_array_new (); inflight = NULL; pkt_serial = 0; next_port = 40000; nagents = 0; nservers = 0; memset (A, 0, sizeof A);
+    ctx = g_main_context_new (); g_main_context_push_thread_default (ctx); vsocks = g_ptr_array_new (); inflight = NULL; pkt_serial = 0; next_port = 40000; nagents = 0; nservers = 0; npulls = 0; memset (A, 0, sizeof A);
     consec = g_hash_table_new_full (g_str_hash, g_str_equal, g_free, NULL); resp_tokens = g_hash_table_new_full (g_str_hash, g_str_equal, g_free, NULL); blackhole = g_hash_table_new_full (g_str_hash, g_str_equal, g_free, NULL);
     for (int i = 0; i < n_vif; i++) g_free (vif[i]); n_vif = 0;
     atk_period_us = 0; atk_next_us = G_MAXINT64; reqlog_n = 0; srv_loss = 0; n_nat = 0; for (int i = 0; i < MAXA; i++) { g_free (last_sdp[i]); last_sdp[i] = NULL; } for (int i = 0; i < 4; i++) { g_free (old_ufrag[i]); g_free (old_pwd[i]); old_ufrag[i] = old_pwd[i] = NULL; }
